@@ -358,13 +358,15 @@ def finding_key(c, verdict):
         return "c06:panic:" + (c.model.get("site") or "unknown") + ":" + c.w[0], "the decoder panics on a well-formed stream"
     if verdict in ("missingerror", "wrongvalue"):
         ints = _ints_in(c.w, [])
-        if _has_tag(c.w, "d") and ("(int " in ts or "bigint" in ts):
+        # an object of a registered class decoded through interface{} has typed (integer) fields as well
+        intdest = "(int " in ts or "bigint" in ts or "(struct" in ts or _has_tag(c.w, "o")
+        if _has_tag(c.w, "d") and intdest:
             return "c06:float-to-int-truncates-silently", "a double that is not an integer of the destination's range is converted to an integer without error"
         if ("(iface)" in ts or "(list)" in ts) and _has_tag(c.w, "l") and not ("(int " in ts or "bigint" in ts):
             if c.opts.long in ("uint", "uint64") and any(z < 0 for z in ints):
                 return "c06:negative-into-unsigned-wraps", "a negative integer decoded into an unsigned destination wraps around without error"
             return "c06:integer-above-int64-in-interface-wraps", "a long outside the configured integer type decoded into interface{} wraps around without error"
-        if "(int " in ts or "(struct" in ts:
+        if intdest:
             if any(u in ts for u in UNSIGNED) and any(z < 0 for z in ints):
                 return "c06:negative-into-unsigned-wraps", "a negative integer decoded into an unsigned destination wraps around without error"
             return "c06:narrowing-int-overflow-wraps-silently", "an integer outside the destination's range is stored modulo 2^n without error"
